@@ -1,0 +1,84 @@
+// SPDX-FileCopyrightText: 2026 The Pion community <https://pion.ly>
+// SPDX-License-Identifier: MIT
+
+//go:build verif
+
+// Package vtrace holds verification hooks. With the "verif" build tag a test
+// harness can observe events, fire virtual timeouts, gate goroutines and
+// filter values at the hook points.
+package vtrace
+
+import (
+	"sync"
+	"sync/atomic"
+)
+
+// Enabled reports whether verification hooks are compiled in.
+const Enabled = true
+
+// Hooks is what a harness installs for one endpoint (keyed by an opaque id,
+// in practice the endpoint's *HandshakeConfig).
+type Hooks struct {
+	Emit     func(g uint64, ev string, kv []any)
+	TimeoutC chan struct{}
+	Gate     func(point string)
+	Filter   func(point string, v any) any
+}
+
+var (
+	registry sync.Map      //nolint:gochecknoglobals
+	seq      atomic.Uint64 //nolint:gochecknoglobals
+	// Default receives events of endpoints without registered hooks.
+	Default atomic.Pointer[Hooks] //nolint:gochecknoglobals
+)
+
+// Register installs hooks for id.
+func Register(id any, h *Hooks) { registry.Store(id, h) }
+
+// Unregister removes the hooks of id.
+func Unregister(id any) { registry.Delete(id) }
+
+// NextSeq returns the next global event sequence number.
+func NextSeq() uint64 { return seq.Add(1) }
+
+func lookup(id any) *Hooks {
+	if v, ok := registry.Load(id); ok {
+		if h, ok := v.(*Hooks); ok {
+			return h
+		}
+	}
+
+	return Default.Load()
+}
+
+// Emit records one verification event.
+func Emit(id any, ev string, kv ...any) {
+	if h := lookup(id); h != nil && h.Emit != nil {
+		h.Emit(seq.Add(1), ev, kv)
+	}
+}
+
+// TimeoutC returns the virtual timeout channel of id (nil if none).
+func TimeoutC(id any) <-chan struct{} {
+	if h := lookup(id); h != nil {
+		return h.TimeoutC
+	}
+
+	return nil
+}
+
+// Gate blocks at a named point until the harness releases it.
+func Gate(id any, point string) {
+	if h := lookup(id); h != nil && h.Gate != nil {
+		h.Gate(point)
+	}
+}
+
+// Filter lets the harness replace a value at a named point.
+func Filter(id any, point string, v any) any {
+	if h := lookup(id); h != nil && h.Filter != nil {
+		return h.Filter(point, v)
+	}
+
+	return v
+}
